@@ -398,6 +398,10 @@ class ProdParser(object):
             if token[0] == self.types.S:
                 try:
                     next_ = next(tokens)
+                    while next_[0] == self.types.S:
+                        # (several S in a row: white space around a comment
+                        # which the tokenizer has left out)
+                        next_ = next(tokens)
                 except StopIteration:
                     yield token
                 else:
